@@ -5,6 +5,7 @@
 -/
 import RSVerif.Proofs.Access
 import RSVerif.Proofs.Errors
+import RSVerif.Proofs.SrcOneShotSpec
 
 namespace RS
 
@@ -44,5 +45,18 @@ theorem oneshot_errors_truthful (stale : Stale) (lw : Array Nat) (k r : Nat)
     original index without recovery shards is an error, not `Ok({})` -/
 example : ∃ er, oneShotDecode (fun L _ => Vector.replicate L 0#16) #[] 2 1
     [(0, #[1, 2]), (0, #[3, 4])] [] = .err er := ⟨_, rfl⟩
+
+open RS.SrcW RS.RustO in
+/-- `reed_solomon_simd::encode` / `decode` AS TRANSLATED FROM TODAY'S SOURCE (`Gen/SrcOneShot.lean`, regenerated
+    by `/verif/translate/rs2lean_oneshot.py` on every run: the functions as sequences of calls of the streaming
+    API, iterators as lists) are, for ANY behaviour of `ReedSolomonEncoder` / `ReedSolomonDecoder`, exactly the
+    streaming sequences of the property: supports first; the shard size from the first recovery shard, else
+    from the first original; every shard added in order through the same `add_*` calls (the first one like the
+    others); `encode` / `decode`; the first error of the sequence is the error of the one-shot call -/
+theorem source_oneshot_is_streaming {E D : Type} (ea : EncApi E) (da : DecApi D) (k r : Nat)
+    (originals : List (Array Nat)) (original recovery : List (Nat × Array Nat)) :
+    SrcO.encode ea k r originals = streamingEncode ea k r originals ∧
+    SrcO.decode da k r original recovery = streamingDecode da k r original recovery :=
+  ⟨src_encode_is_streaming ea k r originals, src_decode_is_streaming da k r original recovery⟩
 
 end RS
